@@ -17,7 +17,7 @@
     time, goes through literally the same code paths as a user-built term.
   * Preconditions not modelled: `serialize` called with `idx > len(data)` (never happens from `serialize_problem`;
     the model answers `IndexError`, which is what `data[idx]` gives in every combinator but FixStr/MultiDigit/
-    YajilinClue), floats, and `str` values used where a list is expected.
+    YajilinClue), floats, and rooms whose cells are not pairs of ints inside `ValuedRooms` (`min()` of arbitrary objects).
 -/
 import CspuzModel.Model.Py
 import CspuzModel.Gen.UnicodeDigits
@@ -81,10 +81,11 @@ def asInt? : PyVal → Option Int
   | .bool b => some (if b then 1 else 0)
   | _ => Option.none
 
-/-- a list or a tuple used as a sequence of items -/
+/-- a list, a tuple or a string used as a sequence of items (a `str` iterates over its one-character strings) -/
 def asSeq? : PyVal → Option (List PyVal)
   | .list l => some l
   | .tuple l => some l
+  | .str s => some (s.map fun c => .str [c])
   | _ => Option.none
 
 /-- Python truthiness. -/
